@@ -278,6 +278,25 @@ func (p c16) Run(w *mon.Worker, idx int) mon.Result {
 		// the source of the copy loses an element afterwards: the copy's nodes still sit where they sat
 		full = ".x = (.y | " + expr + ") | del(.y[" + fmt.Sprint(r.IntN(len(doc.A))) + "]) | .x"
 		res.Tags = append(res.Tags, "copy_then_delete_from_source")
+	} else if !writeBack && !pair && f.seq && expr == "." && r.IntN(5) == 0 {
+		// a slice of the sequence is taken on the way (bound, stored, measured): the elements of the sequence itself
+		// still say where they are
+		input = ref.MapV(ref.KV{K: "y", V: doc}, ref.KV{K: "keep", V: ref.IntV(1)})
+		k := 1 + r.IntN(len(doc.A))
+		full = []string{fmt.Sprintf("(.y[%d:] | length) as $n | .y", k), fmt.Sprintf(".zz_t = .y[%d:] | .y", k), fmt.Sprintf("select(.y[-%d:] | length > -1) | .y", k), fmt.Sprintf(".y[%d:] as $t | .y", k)}[r.IntN(4)]
+		prefix = []any{"y"}
+		writeBack = true
+		res.Tags = append(res.Tags, "slice_on_the_way")
+	} else if !writeBack && !pair && !f.seq && expr == "." && r.IntN(5) == 0 {
+		// a merge whose left operand is not there yet: the result (not assigned anywhere) is a value of its own
+		input = ref.MapV(ref.KV{K: "y", V: doc}, ref.KV{K: "keep", V: ref.IntV(1)})
+		if r.IntN(3) == 0 {
+			full = "null * .y" // a root of its own
+		} else {
+			full = []string{".zz_m * .y", "(.zz_m *+ .y)", ".zz_m *d .y"}[r.IntN(3)]
+			prefix, writeBack = []any{"zz_m"}, true // it stands where its left operand would stand
+		}
+		res.Tags = append(res.Tags, "merge_into_nothing")
 	} else if !writeBack && !pair && f.seq && expr == "." && r.IntN(4) == 0 {
 		// one value (built by the expression: it belongs to no document yet) assigned to two places: each place holds
 		// nodes of its own, which say where THEY are
